@@ -31,7 +31,19 @@ type wire struct {
 	Cfg    *config.Dcp
 }
 
-func newWire(cfg *config.Dcp, nc simnode.Config) (*wire, error) {
+// newWire starts a simulated node and connects real agents to it. On a machine that gives the process little time the
+// bootstrap of an agent can exceed its deadline: that is not a finding about the library, the set-up is tried three times.
+func newWire(cfg *config.Dcp, nc simnode.Config) (w *wire, err error) {
+	for attempt := 0; attempt < 3; attempt++ {
+		if w, err = newWireOnce(cfg, nc); err == nil {
+			return w, nil
+		}
+		time.Sleep(200 * time.Millisecond)
+	}
+	return nil, err
+}
+
+func newWireOnce(cfg *config.Dcp, nc simnode.Config) (*wire, error) {
 	if nc.BucketName == "" {
 		nc.BucketName = "b"
 	}
